@@ -96,7 +96,7 @@ def oracle_load_equality(ck, rng):
         dt = [np.float32, np.int16, np.uint8, np.float64, np.int8][i % 5]
         hi = {np.float32: 50, np.int16: 30000, np.uint8: 250, np.float64: 50, np.int8: 120}[dt]
         img = rng.integers(hi // 2, hi, size=dims).astype(dt)
-        corner_safe = bool(i % 3 == 1)
+        corner_safe = bool(i % 3 == 1) or bool(i % 3 == 0 and (i // 3) % 2 == 0)      # single and batch loaders, with and without
         scale = float(rng.choice([1.0, 0.5, 2.0]))
         # binned-grid position c' (integer for odd S, half-integer for even S) -> original position c = b c' + (b-1)/2
         cb = np.array([rng.integers(4, 6) + ((s - 1) / 2 - (s - 1) // 2) for s in S], dtype=float)
@@ -122,6 +122,13 @@ def oracle_load_equality(ck, rng):
         lb = ld.binning(b, compute=compute)
         nm = 1 if kind == "single" else len(backing)
         ok = abs(lb.scale - scale * b) < 1e-9
+        # every other loader option survives binning (also binning(1), which is a copy)
+        opt_ok = (lb.corner_safe == ld.corner_safe and lb.order == ld.order and lb.output_shape == ld.output_shape
+                  and ld.binning(1).corner_safe == ld.corner_safe and ld.binning(1).order == ld.order)
+        if not opt_ok:
+            ck.violation(what=f"binning changed loader options: corner_safe {ld.corner_safe} -> {lb.corner_safe}, order {ld.order} -> {lb.order}, "
+                              f"output_shape {ld.output_shape} -> {lb.output_shape}", inp={"kind": kind, "binsize": b, "corner_safe": corner_safe},
+                         key={"site": "binning-options", "kind": kind}, oracle="binned_load_equals_blocksum")
         for j in range(nm):
             got = lb.load(j)
             big = ld.load(j, output_shape=tuple(b * s for s in S))
